@@ -160,8 +160,8 @@ class Lab:
         if k == "digest":
             return [("read %d %s %d" % (self.t_id(ev[1]), self.chain_text[tuple(key)], self.attrs.index(a)),
                      ("read", tuple(key), a)) for key in ev[2] for a in LAZY_ATTRS]
-        if k in ("newtable",):
-            return []
+        if k in ("newtable", "formula", "pickle", "ids"):
+            return []      # no counterpart in the lazy model (judged by the oracle only)
         raise InfraError("no model line for %r" % (ev,))
 
     def parse_event(self, text):
@@ -229,7 +229,7 @@ class Lab:
         kind, key, attr = what
         if kind in ("init", "import", "assign", "mutate"):
             if model == "done":
-                return None if real == ["ok"] else "model done, real %r" % (real,)
+                return None if real[0] == "ok" else "model done, real %r" % (real,)
             if model == "attrError":
                 return None if real == ["exc", "AttributeError"] else "model AttributeError, real %r" % (real,)
             if model == "otherError":
@@ -280,6 +280,8 @@ def oracle(lab: Lab, hist, outs):
     bad = []
     fresh = {}       # (T, group) -> True once the group's init ran on T without error
     touched = set()  # (T, node key, attr) assigned / mutated by the user
+    classmut = set() # attributes whose class-level default object was mutated in place
+    idsets = {}
     for i, (ev, out) in enumerate(zip(hist, outs)):
         k = ev[0]
         if k == "init":
@@ -298,8 +300,21 @@ def oracle(lab: Lab, hist, outs):
         elif k in ("assign", "mutate"):
             for _, nk in nodes_of(tuple(ev[2])):
                 touched.add((ev[1], nk, ev[3]))
-            if ev[1] == "public":
-                continue
+            if k == "mutate" and out[0] == "ok" and len(out) > 1 and out[1] == "class":
+                classmut.add(ev[3])
+        elif k in ("formula", "pickle"):
+            if out != ["bool", True]:
+                bad.append((i, "%s on table %s: %r" % (k, ev[1], out), dict(kind=k + "-leaves-table")))
+        elif k == "ids":
+            idsets[ev[1]] = {(tuple(x[0]), x[1]): x[2] for x in out[1]}
+            for T, other in idsets.items():
+                if T == ev[1]:
+                    continue
+                for ka, ident in idsets[ev[1]].items():
+                    if other.get(ka) == ident:
+                        bad.append((i, "%s and %s serve the same object for %s.%s" % (T, ev[1], ka[0], ka[1]),
+                                    dict(kind="shared-object", attr=ka[1])))
+                        break
         elif k in ("read", "has", "digest"):
             T = ev[1]
             items = [(tuple(ev[2]), ev[3], out)] if k != "digest" else \
@@ -311,13 +326,14 @@ def oracle(lab: Lab, hist, outs):
                     want = list(lab.canon[(key, attr)])
                 if T == "public":
                     if o != want:
+                        kind = "public-differs-after-class-default-mutation" if attr in classmut else "public-differs"
                         bad.append((i, "public %s.%s serves %s, the canonical order serves %s" % (
                             key, attr, show(o), show(want)),
-                            dict(kind="public-differs", attr=attr, got=o[0] if o[0] != "val" else "value")))
+                            dict(kind=kind, attr=attr, got=o[0] if o[0] != "val" else "value")))
                 else:
                     gi = group_of(lab, attr)
                     dirty = any((T, nk, attr) in touched for _, nk in nodes_of(key))
-                    if fresh.get((T, gi)) and not dirty and o != want:
+                    if fresh.get((T, gi)) and not dirty and attr not in classmut and o != want:
                         bad.append((i, "freshly initialised %s: %s.%s serves %s, the public table serves %s" % (
                             T, key, attr, show(o), show(want)), dict(kind="private-differs", attr=attr)))
         elif k == "calc":
@@ -338,7 +354,7 @@ def compare(lab: Lab, hist, outs, replies):
     for i, (ev, out, reps) in enumerate(zip(hist, outs, replies)):
         ml = lab.model_lines(ev)
         k = ev[0]
-        if k == "newtable":
+        if k in ("newtable", "formula", "pickle", "ids"):
             continue
         if k == "calc":
             arg = tuple(ev[2]) if isinstance(ev[2], list) else ev[2]
@@ -370,3 +386,27 @@ def _canon_token(self, key, attr):
 
 
 Lab.canon_token = _canon_token
+
+
+def admissible(lab: Lab, h):
+    """histories outside the modelled alphabet are dropped (documented in docs/notes-state.md):
+       * in-place mutation of an immutable value (float / str / None) is not an event;
+       * a user-assigned opaque value for `magnetic_ff` followed by magnetic_ff.init on the same
+         table makes the loader itself raise TypeError (it merges into the existing value);
+       * a user-assigned `neutron_activation` on an *element* followed by activation.init on the same
+         table makes the loader raise AttributeError (`hasattr(isotope)` is true by delegation,
+         `del isotope.neutron_activation` then fails)."""
+    assigned = set()
+    act = set()
+    for e in h:
+        if e[0] == "mutate" and (e[3] not in MUTABLE_ATTRS or lab.kind[(tuple(e[2]), e[3])] != "mutable"):
+            return False
+        if e[0] == "assign" and e[3] == "magnetic_ff":
+            assigned.add(e[1])
+        if e[0] == "init" and e[1] == "magnetic_ff.init" and e[2] in assigned:
+            return False
+        if e[0] == "assign" and e[3] == "neutron_activation" and e[2][1] == 0 and e[2][2] == 0:
+            act.add(e[1])
+        if e[0] == "init" and e[1] == "activation.init" and e[2] in act:
+            return False
+    return True
